@@ -68,6 +68,17 @@ type Case struct {
 	Exchanges []Exchange `json:"exchanges"`
 	Mode      string     `json:"mode"` // seq | pipe | batch
 	Batch     int        `json:"batch,omitempty"`
+	// Others: further client connections driven at the same time through the
+	// same proxy (each with its own script). The property is per connection;
+	// whatever the proxy shares between connections must not leak across them.
+	Others []Sub `json:"others,omitempty"`
+}
+
+// Sub is the script of one additional concurrent connection.
+type Sub struct {
+	Exchanges []Exchange `json:"exchanges"`
+	Mode      string     `json:"mode"`
+	Batch     int        `json:"batch,omitempty"`
 }
 
 func (e *Exchange) closeMarked() bool {
@@ -115,7 +126,7 @@ func (e *Exchange) reqBody() []byte {
 	return kit.Bytes(e.ReqSeed, e.ReqSize)
 }
 
-func (e *Exchange) wireRequest(id int) []byte {
+func (e *Exchange) wireRequest(id string) []byte {
 	var b bytes.Buffer
 	proto := "HTTP/1.1"
 	if e.HTTP10 {
@@ -130,7 +141,7 @@ func (e *Exchange) wireRequest(id int) []byte {
 		fmt.Fprintf(&b, "%s %s %s\r\n", e.Method, e.Target, proto)
 	}
 	fmt.Fprintf(&b, "Host: %s\r\n", e.Host)
-	fmt.Fprintf(&b, "X-Verif-Id: %d\r\n", id)
+	fmt.Fprintf(&b, "X-Verif-Id: %s\r\n", id)
 	for _, h := range e.Headers {
 		fmt.Fprintf(&b, "%s: %s\r\n", h.N, h.V)
 	}
@@ -401,6 +412,19 @@ func genCase(t *rapid.T) Case {
 		}
 		c.Exchanges = append(c.Exchanges, e)
 	}
+	if rapid.IntRange(0, 3).Draw(t, "parallel") == 0 {
+		m := rapid.IntRange(1, 2).Draw(t, "others")
+		for k := 0; k < m; k++ {
+			sub := Sub{Mode: rapid.SampledFrom([]string{"seq", "pipe"}).Draw(t, "omode")}
+			on := rapid.IntRange(1, 4).Draw(t, "on")
+			for i := 0; i < on; i++ {
+				e := genExchange(t, 70000, i == on-1)
+				e.Early = false
+				sub.Exchanges = append(sub.Exchanges, e)
+			}
+			c.Others = append(c.Others, sub)
+		}
+	}
 	if !c.Exchanges[n-1].closeMarked() {
 		// probe: the connection must still be usable
 		c.Exchanges = append(c.Exchanges, Exchange{Method: "GET", Form: "origin", Host: "origin.test", Target: "/probe", ReqFrame: "none", Status: 200, ResFrame: "cl", ResSize: 5, ResSeed: 99})
@@ -463,13 +487,26 @@ func run(c Case) kit.Verdict {
 	return v
 }
 
+type got struct {
+	res *netkit.Resp
+	err error
+}
+
+func lookup(subs []Sub, id string) *Exchange {
+	var k, i int
+	if _, err := fmt.Sscanf(id, "%d.%d", &k, &i); err != nil || k < 0 || k >= len(subs) || i < 0 || i >= len(subs[k].Exchanges) {
+		return nil
+	}
+	return &subs[k].Exchanges[i]
+}
+
 func runOnce(c Case, T time.Duration) (v kit.Verdict) {
+	subs := append([]Sub{{Exchanges: c.Exchanges, Mode: c.Mode, Batch: c.Batch}}, c.Others...)
 	origin := netkit.NewOrigin(func(r *netkit.ReqLog) netkit.Script {
-		id, err := strconv.Atoi(r.Header.Get("X-Verif-Id"))
-		if err != nil || id < 0 || id >= len(c.Exchanges) {
+		e := lookup(subs, r.Header.Get("X-Verif-Id"))
+		if e == nil {
 			return netkit.Script{Raw: []byte("HTTP/1.1 500 Internal Server Error\r\nX-Verif-Origin: unknown-id\r\nContent-Length: 0\r\n\r\n"), CutAt: -1}
 		}
-		e := &c.Exchanges[id]
 		sc := netkit.Script{Raw: e.wireResponse(), CutAt: -1}
 		if e.ResClose || e.ResFrame == "close" || e.ResHTTP10 {
 			sc.After = "close"
@@ -477,11 +514,10 @@ func runOnce(c Case, T time.Duration) (v kit.Verdict) {
 		return sc
 	})
 	origin.Early = func(r *netkit.ReqLog) *netkit.Script {
-		id, err := strconv.Atoi(r.Header.Get("X-Verif-Id"))
-		if err != nil || id < 0 || id >= len(c.Exchanges) || !c.Exchanges[id].Early {
+		e := lookup(subs, r.Header.Get("X-Verif-Id"))
+		if e == nil || !e.Early {
 			return nil
 		}
-		e := &c.Exchanges[id]
 		sc := &netkit.Script{Raw: e.wireResponse(), CutAt: -1}
 		if e.ResClose {
 			sc.After = "close"
@@ -494,24 +530,56 @@ func runOnce(c Case, T time.Duration) (v kit.Verdict) {
 	p.SetTimeout(60 * time.Second)
 	p.SetDial(dialer.Dial)
 	pr := netkit.Start(p, nil)
-	stopped := false
-	defer func() {
-		if !stopped {
-			pr.Stop(10 * time.Second)
+	defer pr.Stop(10 * time.Second)
+
+	all := make([][]got, len(subs))
+	verdicts := make([]kit.Verdict, len(subs))
+	var wg sync.WaitGroup
+	for k := range subs {
+		wg.Add(1)
+		go func(k int) {
+			defer wg.Done()
+			verdicts[k], all[k] = runConn(k, subs[k], pr.Addr, T)
+		}(k)
+	}
+	wg.Wait()
+	for _, vv := range verdicts {
+		v = append(v, vv...)
+	}
+	pr.Stop(10 * time.Second)
+	log := origin.Log()
+	for k := range subs {
+		var mine []netkit.ReqLog
+		prefix := strconv.Itoa(k) + "."
+		for _, r := range log {
+			if strings.HasPrefix(r.Header.Get("X-Verif-Id"), prefix) {
+				mine = append(mine, r)
+			}
 		}
-	}()
-	cl, err := netkit.Dial(pr.Addr)
+		v = append(v, checkOrigin(k, subs[k], all[k], mine, len(v) == 0)...)
+	}
+	known := 0
+	for _, r := range log {
+		if lookup(subs, r.Header.Get("X-Verif-Id")) != nil {
+			known++
+		}
+	}
+	if len(v) == 0 && known != len(log) {
+		v.Addf("C01/request/any/extra-requests-at-origin", "origin logged %d requests, %d of them carry no id of this case", len(log), len(log)-known)
+	}
+	return v
+}
+
+// runConn drives one client connection through its script.
+func runConn(k int, c Sub, proxyAddr string, T time.Duration) (v kit.Verdict, results []got) {
+	cl, err := netkit.Dial(proxyAddr)
 	if err != nil {
-		return kit.Failf("C01/harness/dial", "cannot reach the proxy: %v", err)
+		return kit.Failf("C01/harness/dial", "cannot reach the proxy: %v", err), nil
 	}
 	defer cl.Close()
 
 	n := len(c.Exchanges)
-	type got struct {
-		res *netkit.Resp
-		err error
-	}
-	results := make([]got, n)
+	results = make([]got, n)
 	var wmu sync.Mutex
 	var werr error
 	gotResp := make([]chan struct{}, n)
@@ -519,7 +587,7 @@ func runOnce(c Case, T time.Duration) (v kit.Verdict) {
 		gotResp[i] = make(chan struct{})
 	}
 	writeExchange := func(i int) error {
-		raw := c.Exchanges[i].wireRequest(i)
+		raw := c.Exchanges[i].wireRequest(fmt.Sprintf("%d.%d", k, i))
 		if !c.Exchanges[i].Early {
 			return cl.Write(raw)
 		}
@@ -651,11 +719,16 @@ func runOnce(c Case, T time.Duration) (v kit.Verdict) {
 		}
 	}
 
+	return v, results
+}
+
+// checkOrigin compares what the origin received on behalf of connection k.
+func checkOrigin(k int, c Sub, results []got, log []netkit.ReqLog, strict bool) (v kit.Verdict) {
+	n := len(c.Exchanges)
+	if results == nil {
+		return nil
+	}
 	// (O1) what the origin received
-	stopped = true
-	cl.Close()
-	pr.Stop(10 * time.Second)
-	log := origin.Log()
 	for i := 0; i < n; i++ {
 		e := &c.Exchanges[i]
 		if results[i].res == nil {
@@ -666,7 +739,7 @@ func runOnce(c Case, T time.Duration) (v kit.Verdict) {
 			break
 		}
 		r := log[i]
-		if r.Header.Get("X-Verif-Id") != strconv.Itoa(i) {
+		if r.Header.Get("X-Verif-Id") != fmt.Sprintf("%d.%d", k, i) {
 			v.Addf("C01/request/"+shape(e)+"/order-differs", "origin's request #%d carries id %q", i, r.Header.Get("X-Verif-Id"))
 			break
 		}
@@ -698,8 +771,8 @@ func runOnce(c Case, T time.Duration) (v kit.Verdict) {
 			v.Addf("C01/request/"+shape(e)+"/body-differs", "request %d (%s, framing %s): origin read %d bytes (sha %s, err %q), client sent %d bytes (sha %s)", i, e.Method, e.ReqFrame, r.BodyLen, r.BodySHA, r.BodyErr, len(body), sha(body))
 		}
 	}
-	if len(v) == 0 && len(log) > n {
-		v.Addf("C01/request/any/extra-requests-at-origin", "origin logged %d requests, client sent %d", len(log), n)
+	if strict && len(v) == 0 && len(log) > n {
+		v.Addf("C01/request/any/extra-requests-at-origin", "origin logged %d requests of connection %d, its client sent %d", len(log), k, n)
 	}
 	return v
 }
@@ -733,6 +806,9 @@ func nontrivial(c Case) bool {
 
 func classes(c Case) []string {
 	var cl []string
+	if len(c.Others) > 0 {
+		cl = append(cl, "concurrent-connections")
+	}
 	if len(c.Exchanges) >= 2 {
 		cl = append(cl, "multi-exchange")
 		if c.Mode != "seq" {
@@ -782,7 +858,7 @@ var propRelay = &kit.Prop[Case]{
 	ID: "C01", Name: "relay",
 	Rule: "scripts of 1..N exchanges on one client connection (methods x target forms x header multisets x request framing/size x origin status/framing/size, sequential, pipelined or batched; only the last may ask to close; a probe is appended otherwise) through martian.NewProxy() to a raw scripted origin; non-trivial = >=2 exchanges, or a body >= 4097 bytes, or chunked/close-delimited framing, or a repeated header name",
 	Gen:  genCase, Run: run, NonTrivial: nontrivial, Classes: classes, Journal: true,
-	Gates: map[string]float64{"multi-exchange": 0.40, "pipelined": 0.15, "chunked-request": 0.10, "chunked-response": 0.2},
+	Gates: map[string]float64{"multi-exchange": 0.40, "pipelined": 0.15, "concurrent-connections": 0.15, "chunked-request": 0.10, "chunked-response": 0.2},
 }
 
 func TestRelay(t *testing.T) {
